@@ -233,7 +233,9 @@ pub struct World {
     // lock (unit cli)
     pub ghost stdout_bytes: Seq<u8>,             // bytes written to the process's standard output
     pub ghost lock_held: bool,
-    pub ghost effects: nat,                      // number of mutating application entry points entered
+    pub ghost effects: nat,
+    pub ghost bind_attempts: nat,                // attempts to bind the lock address
+    pub ghost addr_in_use: bool,                 // another process holds the lock address right now                      // number of mutating application entry points entered
 }
 pub open spec fn flat(b: Seq<Vec<u8>>) -> Seq<u8> decreases b.len() { if b.len() == 0 { Seq::empty() } else { flat(b.drop_last()) + b.last()@ } }
 pub proof fn lemma_flat_push(b: Seq<Vec<u8>>, x: Vec<u8>) ensures flat(b.push(x)) == flat(b) + x@ { assert(b.push(x).drop_last() =~= b); }
@@ -308,6 +310,14 @@ pub mod tokio {
         pub struct Interval { pub x: u8 }
         impl Interval { #[verifier::external_body] pub async fn tick(&mut self) { unimplemented!() } }
         #[verifier::external_body] pub fn interval(d: Duration) -> Interval { unimplemented!() }
+        pub struct Elapsed { pub x: u8 }
+        // R12 target for `timeout(d, TcpListener::bind(addr))` (unit lock): ONE attempt to bind the lock address.  ASSUMED (OS): a
+        // listening socket is exclusive per address - the bind fails while another process holds it - and is released when its holder dies
+        #[verifier::external_body] pub async fn timeout_bind(d: std::time::Duration, addr: &String, Tracked(w): Tracked<&mut super::super::World>) -> (r: Result<Result<super::net::TcpListener, std::io::Error>, Elapsed>)
+            ensures final(w).bind_attempts == old(w).bind_attempts + 1, final(w).effects == old(w).effects,
+                r matches Ok(Ok(l)) ==> !old(w).addr_in_use && final(w).lock_held,
+                !(r matches Ok(Ok(l))) ==> final(w).lock_held == old(w).lock_held,
+        { unimplemented!() }
     }
     pub mod io {
         use vstd::prelude::*;
@@ -367,6 +377,7 @@ pub mod tokio {
     pub mod net {
         use vstd::prelude::*;
         pub struct TcpStream { pub x: u8 }
+        pub struct TcpListener { pub x: u8 }
     }
     pub mod fs {
         use vstd::prelude::*;
